@@ -392,6 +392,16 @@ def conn_classify(line, impl, mobs, extra):
     elif t[0] == "scorer":
         if flags.get("AVX2EQ") == "0":
             info["corr_fail"] = "the AVX2 and portable accumulation models disagree"
+        elif impl != mobs and " answers " in impl and " answers " in mobs:
+            # the slot layout of the double array (bases / checks / costs) is an internal choice: what the property
+            # fixes is what a lookup and an accumulation return (theorem retrieve_build).  A different layout with the
+            # same answers is reported as drift, not as an alarm.
+            if impl.split(" answers ", 1)[1] == mobs.split(" answers ", 1)[1]:
+                info["ignore"] = True
+                tags.append("drift=scorer-layout")
+            else:
+                info["prop_fail"] = "scorer-lookup-differs-from-stored-costs"
+                info["why"] = "a lookup / accumulation over the bigram scorer returns something other than the stored costs"
     return info
 
 
